@@ -23,7 +23,8 @@ PAIRS = [
     ("fooBar", "fooBaz", True),
     ("alpha", "beta", False),
 ]
-ENUM_PAIRS = [("class", "class_"), ("None", "None_"), ("RED", "GREEN")]
+ENUM_PAIRS = [("class", "class_"), ("None", "None_"), ("RED", "GREEN"), ("_INTERNAL", "INTERNAL"),
+              ("fooBar", "foo_bar"), ("A1", "a1")]
 
 
 def build(scope, a, b, snake):
@@ -84,12 +85,13 @@ def run(ctx):
         sn = True if scope == "operations" else snake
         cmds += [[Sym("process"), [sn, trim, res], a], [Sym("process"), [sn, trim, res], b]]
     outs = model.batch("C18", cmds, jobs=1)
+    evals = sorted({x for p in ENUM_PAIRS for x in p})
+    enum_model = dict(zip(evals, model.batch("C18", [[Sym("enum_member"), v] for v in evals], jobs=1)))
     pred = {}
     i = 0
     for scope, a, b, snake in cases:
         if scope == "enum":
-            kw = {"class", "None", "True", "False", "from"}
-            pa, pb = (a + "_" if a in kw else a), (b + "_" if b in kw else b)
+            pa, pb = enum_model[a], enum_model[b]
         else:
             pa, pb = outs[i], outs[i + 1]
             i += 2
@@ -111,6 +113,13 @@ def run(ctx):
                     run.violation(f"distinct non-colliding names {a!r}/{b!r} in one {scope} scope: generation failed "
                                   f"with {g.res['exc'][0]}", rep)
                 continue
+            if scope == "enum":
+                import ast as _ast
+                members = [t.id for node in _ast.parse(g.files()["enums.py"]).body if isinstance(node, _ast.ClassDef)
+                           for st in node.body if isinstance(st, _ast.Assign) for t in st.targets]
+                if members != [pa, pb]:
+                    run.violation(f"K1 enum member names for values {a!r},{b!r}: generated {members} model {[pa, pb]}",
+                                  dict(rep, generated=members, model=[pa, pb]), found_input=False)
             usable, detail = both_usable(g, scope, a, b, pa, pb)
             rep["detail"] = detail
             if usable:
